@@ -64,9 +64,10 @@ var (
 )
 
 const (
-	C1 = 10
-	CS = "cs"
-	Cf = 1.5
+	C1   = 10
+	CS   = "cs"
+	Cf   = 1.5
+	CIdx = 2
 )
 
 func init() { Ch <- 1; Ch <- 2; Ch <- 3 }
@@ -154,6 +155,15 @@ func c13Atoms() map[string][]vexpr {
 	add("[]@S", vexpr{Expr: "[]@S{{A: 1}, {B: \"x\"}}", Kind: "composite-elided"})
 	add("[]*@S", vexpr{Expr: "[]*@S{{A: 1}, @PS}", Kind: "composite-elided-ptr"})
 	add("map[string]@S", vexpr{Expr: `map[string]@S{"k": {A: 1}}`, Kind: "composite-elided-map"})
+	// literals whose KEYS are package-level identifiers (they must be re-qualified like any other
+	// identifier when the expression is written in another package; struct field keys must not)
+	add("map[int]string", vexpr{Expr: `map[int]string{@C1: "ten", @CIdx: "two"}`, Kind: "composite-ident-keys-map", PtrLike: true})
+	add("map[string]int", vexpr{Expr: `map[string]int{@CS: @C1, @Vs: @V1}`, Kind: "composite-ident-keys-map", PtrLike: true})
+	add("[3]int", vexpr{Expr: "[3]int{@CIdx: @C1}", Kind: "composite-ident-keys-array"})
+	add("[]int", vexpr{Expr: "[]int{@CIdx: @V1, 0: @C1}", Kind: "composite-ident-keys-slice", PtrLike: true})
+	add("map[int]@S", vexpr{Expr: `map[int]@S{@C1: {A: @V1, B: @Vs}}`, Kind: "composite-ident-keys-nested", PtrLike: true})
+	add("@S", vexpr{Expr: "@S{A: @V1, B: @Vs, P: @PI}", Kind: "composite-struct-ident-values"})
+	add("[]map[int]int", vexpr{Expr: "[]map[int]int{@CIdx: {@C1: @V1}}", Kind: "composite-ident-keys-nested", PtrLike: true})
 	add("struct{ X int }", vexpr{Expr: "struct{ X int }{X: 3}", Kind: "anon-struct"})
 	add("struct{ X, Y int }", vexpr{Expr: "struct{ X, Y int }{1, 2}", Kind: "anon-struct"})
 	add("[]interface{}", vexpr{Expr: "[]interface{}{1, \"a\"}", Kind: "iface-elements"})
@@ -478,99 +488,7 @@ func judgeTwin(rep *Report, pr *ProgResult, keys []string, pairs [][2]string) {
 func CheckC13(e *Env) int {
 	t0 := time.Now()
 	rep := NewReport(e, "C13", "exploration", "typed grammar enumeration (atoms over every operand kind, then unary/binary/conversion/composite/index/slice/selector/deref/address-of/type-assert wrappers to depth 2-3) each placed in the injector's package and in another package's set; oracle from the generator's own expression tree: expressions containing a call of a function, method, function-typed variable/field (named function types included), function literal call or a channel receive, wire.Value of interface type, InterfaceValue that does not implement, or unexported/non-package-scope identifiers seen from another package must be rejected; all others must be accepted and at run time be reflect.DeepEqual to the same expression evaluated in its home package, deliver the very address for &pkgVar forms, and the same pointer across calls and across injectors sharing the set; distinct = (production, operand kind, placement, class)")
-	exprs := c13Exprs(e)
-	var cases []c13Case
-	id := 0
-	for _, v := range exprs {
-		for _, cross := range []bool{false, true} {
-			if cross && v.Local {
-				continue
-			}
-			class := v.Class
-			if class == "reject-cross" {
-				if cross {
-					class = "reject"
-				} else {
-					class = "accept"
-				}
-			}
-			id++
-			cases = append(cases, c13Case{ID: id, V: v, Cross: cross, Class: class})
-		}
-	}
-	// round 1: must-accept packed 12 per package, must-reject / noclaim alone
-	type group struct {
-		id    string
-		cases []c13Case
-	}
-	var groups []group
-	var accApp, accLib []c13Case
-	for _, c := range cases {
-		if c.Class == "accept" {
-			if c.Cross {
-				accLib = append(accLib, c)
-			} else {
-				accApp = append(accApp, c)
-			}
-		} else {
-			groups = append(groups, group{fmt.Sprintf("vx%04d", c.ID), []c13Case{c}})
-		}
-	}
-	pack := func(cs []c13Case, tag string) {
-		for i := 0; i < len(cs); i += 12 {
-			j := i + 12
-			if j > len(cs) {
-				j = len(cs)
-			}
-			groups = append(groups, group{fmt.Sprintf("vg%s%03d", tag, i/12), cs[i:j]})
-		}
-	}
-	pack(accApp, "a")
-	pack(accLib, "l")
-	run := func(gs []group, name string) map[string]*ProgResult {
-		var progs []*Program
-		for _, g := range gs {
-			progs = append(progs, c13Program(g.id, g.cases))
-		}
-		res := RunPool(e, progs, PoolOpts{Execute: true, Name: name, BatchSize: 16})
-		m := map[string]*ProgResult{}
-		for _, pr := range res {
-			m[pr.P.ID] = pr
-		}
-		return m
-	}
-	res := run(groups, "c13")
-	// round 2: groups that were rejected as a whole are re-run one case per package
-	var retry []group
-	for _, g := range groups {
-		pr := res[g.id]
-		if len(g.cases) > 1 && pr != nil && pr.PreBad == "" && (pr.Outcome == nil || !pr.Outcome.Wrote || pr.BuildErr != "" || pr.Crash != "") {
-			for _, c := range g.cases {
-				retry = append(retry, group{fmt.Sprintf("vr%04d", c.ID), []c13Case{c}})
-			}
-		}
-	}
-	if len(retry) > 0 {
-		r2 := run(retry, "c13r")
-		for k, v := range r2 {
-			res[k] = v
-		}
-		var keep []group
-		retried := map[int]bool{}
-		for _, g := range retry {
-			retried[g.cases[0].ID] = true
-		}
-		for _, g := range groups {
-			if len(g.cases) > 1 && retried[g.cases[0].ID] {
-				continue
-			}
-			keep = append(keep, g)
-		}
-		groups = append(keep, retry...)
-	}
-	for _, g := range groups {
-		judgeValueGroup(rep, g.id, g.cases, res[g.id])
-	}
+	runValueCases(e, rep, c13Exprs(e), "c13")
 	tp, tkeys, tpairs := c13TwinProgram("vtwin")
 	tres := RunPool(e, []*Program{tp}, PoolOpts{Execute: true, Name: "c13tw", BatchSize: 1})
 	judgeTwin(rep, tres[0], tkeys, tpairs)
@@ -601,7 +519,7 @@ func judgeValueGroup(rep *Report, gid string, cases []c13Case, pr *ProgResult) {
 		if pr.GenFile != "" {
 			files[pr.P.ID+"/app/wire_gen.go"] = pr.GenFile
 		}
-		rep.Violate(fmt.Sprintf("%s_k%d", gid, c.ID), Issue{Prop: "C13", Clause: clause, Witness: witness, Sig: c13Sig(clause, c)}, files,
+		rep.Violate(fmt.Sprintf("%s_k%d", gid, c.ID), Issue{Prop: rep.Prop, Clause: clause, Witness: witness, Sig: strings.Replace(c13Sig(clause, c), "C13:", rep.Prop+":", 1)}, files,
 			map[string]string{"expr.txt": fmt.Sprintf("%+v\ncross=%v class=%s", c.V, c.Cross, c.Class), "wire_stderr.txt": pr.GenStderr})
 	}
 	sigOf := func(c c13Case) string {
@@ -740,4 +658,125 @@ func c13Sig(clause string, c c13Case) string {
 		return fmt.Sprintf("C13:must-refuse-accepted:%s:cross=%v", c.V.Kind, c.Cross)
 	}
 	return "C13:" + clause + ":" + c.V.Kind
+}
+
+// runValueCases places every expression in the injector's package and in another package's
+// set, runs the programs and judges them (shared by C13 and, for relocation-sensitive
+// expressions, C10).
+func runValueCases(e *Env, rep *Report, exprs []vexpr, name string) {
+	var cases []c13Case
+	id := 0
+	for _, v := range exprs {
+		for _, cross := range []bool{false, true} {
+			if cross && v.Local {
+				continue
+			}
+			class := v.Class
+			if class == "reject-cross" {
+				if cross {
+					class = "reject"
+				} else {
+					class = "accept"
+				}
+			}
+			id++
+			cases = append(cases, c13Case{ID: id, V: v, Cross: cross, Class: class})
+		}
+	}
+	// round 1: must-accept packed 12 per package, must-reject / noclaim alone
+	type group struct {
+		id    string
+		cases []c13Case
+	}
+	var groups []group
+	var accApp, accLib []c13Case
+	for _, c := range cases {
+		if c.Class == "accept" {
+			if c.Cross {
+				accLib = append(accLib, c)
+			} else {
+				accApp = append(accApp, c)
+			}
+		} else {
+			groups = append(groups, group{fmt.Sprintf("vx%04d", c.ID), []c13Case{c}})
+		}
+	}
+	pack := func(cs []c13Case, tag string) {
+		for i := 0; i < len(cs); i += 12 {
+			j := i + 12
+			if j > len(cs) {
+				j = len(cs)
+			}
+			groups = append(groups, group{fmt.Sprintf("vg%s%03d", tag, i/12), cs[i:j]})
+		}
+	}
+	pack(accApp, "a")
+	pack(accLib, "l")
+	run := func(gs []group, name string) map[string]*ProgResult {
+		var progs []*Program
+		for _, g := range gs {
+			progs = append(progs, c13Program(g.id, g.cases))
+		}
+		res := RunPool(e, progs, PoolOpts{Execute: true, Name: name, BatchSize: 16})
+		m := map[string]*ProgResult{}
+		for _, pr := range res {
+			m[pr.P.ID] = pr
+		}
+		return m
+	}
+	res := run(groups, name)
+	// round 2: groups that were rejected as a whole are re-run one case per package
+	var retry []group
+	for _, g := range groups {
+		pr := res[g.id]
+		if len(g.cases) > 1 && pr != nil && pr.PreBad == "" && (pr.Outcome == nil || !pr.Outcome.Wrote || pr.BuildErr != "" || pr.Crash != "") {
+			for _, c := range g.cases {
+				retry = append(retry, group{fmt.Sprintf("vr%04d", c.ID), []c13Case{c}})
+			}
+		}
+	}
+	if len(retry) > 0 {
+		r2 := run(retry, name+"r")
+		for k, v := range r2 {
+			res[k] = v
+		}
+		var keep []group
+		retried := map[int]bool{}
+		for _, g := range retry {
+			retried[g.cases[0].ID] = true
+		}
+		for _, g := range groups {
+			if len(g.cases) > 1 && retried[g.cases[0].ID] {
+				continue
+			}
+			keep = append(keep, g)
+		}
+		groups = append(keep, retry...)
+	}
+	for _, g := range groups {
+		judgeValueGroup(rep, g.id, g.cases, res[g.id])
+	}
+}
+
+// c13RelocationExprs: accepted expressions whose copy depends on which package wrote them
+// (identifiers to re-qualify in every syntactic position).
+func c13RelocationExprs() []vexpr {
+	var out []vexpr
+	atoms := c13Atoms()
+	var types []string
+	for t := range atoms {
+		types = append(types, t)
+	}
+	sort.Strings(types)
+	for _, t := range types {
+		for _, v := range atoms[t] {
+			if v.Class != "accept" || v.Local || v.Iface != "" && !strings.Contains(v.Expr, "@") {
+				continue
+			}
+			if strings.Contains(v.Expr, "@") {
+				out = append(out, v)
+			}
+		}
+	}
+	return out
 }
